@@ -77,6 +77,7 @@ def other_thresholds(ctx, games):
 
 
 def check_values(ctx, recs):
+    recs = sc.mismatch_first(recs)
     by_game = {}
     for r in recs:
         if not r.ok:
